@@ -134,9 +134,6 @@ def build(g, kind):
 
 @contextlib.contextmanager
 def facades(uses):
-    if not S.symbolic():
-        yield
-        return
     with patched((se, dict(random=Tripwire('random', uses)))):
         yield
 
